@@ -425,6 +425,14 @@ pub fn ops(max: usize) -> BoxedStrategy<Vec<Op>> {
     // a few handles are filled first (containers, dates, times, records) so that later calls meet live values of the right kind
     let cfg = GenCfg { depth: 1, wf: true, max_str: 6, nan: true };
     let inner = gv::value(GenCfg { depth: 0, ..cfg });
+    let incons: BoxedStrategy<RVal> = (prop::collection::vec(gv::dict_of(cfg, inner.clone(), 3), 1..4), any::<u8>()).prop_map(|(mut rows, k)| {
+            for (i, r) in rows.iter_mut().enumerate() {
+                r.insert(["a", "b", "dis", "id"][(k as usize + i) % 4].to_string(), if i % 2 == 0 { RVal::num(1.0) } else { RVal::Str("x".into()) });
+            }
+            let cols = if k % 3 == 0 { vec![] } else { vec![RCol { name: "a".into(), meta: if k % 2 == 0 { None } else { Some([("dis".to_string(), RVal::Str("A".into()))].into_iter().collect()) } }] };
+            RVal::Grid(RGrid { meta: None, cols, rows })
+        })
+    .boxed();
     let seedv = prop_oneof![
         3 => prop::collection::vec(inner.clone(), 0..4).prop_map(RVal::List),
         3 => gv::dict_of(cfg, inner.clone(), 4).prop_map(RVal::Dict),
@@ -437,19 +445,22 @@ pub fn ops(max: usize) -> BoxedStrategy<Vec<Op>> {
         2 => gv::datetime(cfg),
         2 => small_value(),
         // grids as the Hayson decoder may return them: row tags that are no declared column, no columns at all
-        2 => (prop::collection::vec(gv::dict_of(cfg, inner.clone(), 3), 1..4), any::<u8>()).prop_map(|(mut rows, k)| {
-            for (i, r) in rows.iter_mut().enumerate() {
-                r.insert(["a", "b", "dis", "id"][(k as usize + i) % 4].to_string(), if i % 2 == 0 { RVal::num(1.0) } else { RVal::Str("x".into()) });
-            }
-            let cols = if k % 3 == 0 { vec![] } else { vec![RCol { name: "a".into(), meta: if k % 2 == 0 { None } else { Some([("dis".to_string(), RVal::Str("A".into()))].into_iter().collect()) } }] };
-            RVal::Grid(RGrid { meta: None, cols, rows })
-        }),
+        2 => incons.clone(),
         // lists of lists of lists (borrowed entry pointers can point two and three levels down)
         2 => prop::collection::vec(prop::collection::vec(prop::collection::vec(inner.clone(), 0..4).prop_map(RVal::List), 0..4).prop_map(RVal::List), 1..4).prop_map(RVal::List),
     ];
-    (prop::collection::vec((slot(), seedv), 0..6), prop::collection::vec(op(), 1..=max))
-        .prop_map(|(pre, mut rest)| {
+    // one sequence in six starts with the scenario that needs three things at once: such a grid in a slot, a filter that
+    // its rows can match, and the grid-level filter calls on exactly that pair
+    let scenario = (0u8..6, slot(), fslot(), slot(), incons, prop::sample::select(vec!["a", "b", "dis", "id", "not a", "a == 1", "dis == \"x\"", "a or b or dis or id"]));
+    (prop::collection::vec((slot(), seedv), 0..6), prop::collection::vec(op(), 1..=max), scenario)
+        .prop_map(|(pre, mut rest, (on, gs, fs, rs, grid, ftext))| {
             let mut v: Vec<Op> = pre.into_iter().map(|(s, val)| Op::Put(s, val)).collect();
+            if on == 0 {
+                v.push(Op::Put(gs, grid));
+                v.push(Op::FilterParse(fs, Txt::S(ftext.to_string())));
+                v.push(Op::FilterAll(fs, gs, rs));
+                v.push(Op::FilterFirst(fs, gs, rs));
+            }
             v.append(&mut rest);
             v
         })
